@@ -472,13 +472,13 @@ def minimise(mod, case, res, budget_runs=150, budget_s=60.0):
     return best, best_res, runs, notes
 
 
-def write_replay(mod, case, res, notes, tier, base_seed, minimise_runs):
+def write_replay(mod, case, res, notes, tier, base_seed, minimise_runs, hang_timeout=None):
     d = os.path.join(VERIF, 'replays')
     os.makedirs(d, exist_ok=True)
     blob = dict(property=mod.ID, kind=res['kind'], message=res['message'], tier=tier,
                 base_seed=base_seed, case=case, tape=res['tape'], notes=notes,
                 digest=res['digest'], minimise_runs=minimise_runs, repo=repo_fingerprint(),
-                hashseed=os.environ.get('PYTHONHASHSEED', ''),
+                hashseed=os.environ.get('PYTHONHASHSEED', ''), hang_timeout=hang_timeout,
                 detail=res.get('detail'))
     h = hashlib.sha256(jdump(blob['case']).encode()).hexdigest()[:10]
     path = os.path.join(d, '%s-%s.json' % (mod.ID, h))
@@ -539,7 +539,7 @@ def run_batch(cid, tier, base_seed, jobs=None, wall_cap=None, count=None):
     jobs = jobs or int(os.environ.get('VERIF_JOBS') or 0) or min(16, os.cpu_count() or 1)
     n = count or int(os.environ.get('VERIF_COUNT') or 0) or mod.BUDGET[tier]
     wall_cap = wall_cap or float(os.environ.get('VERIF_WALL') or 0) or mod.WALL[tier]
-    per_case_timeout = getattr(mod, 'CASE_TIMEOUT', 300)
+    per_case_timeout = int(os.environ.get('VERIF_CASE_TIMEOUT') or 0) or getattr(mod, 'CASE_TIMEOUT', 300)
     chunk = max(1, min(getattr(mod, 'CHUNK', 25), (n + jobs * 4 - 1) // (jobs * 4)))
     chunks = [list(range(s, min(n, s + chunk))) for s in range(0, n, chunk)]
     results = []
@@ -579,8 +579,77 @@ def run_batch(cid, tier, base_seed, jobs=None, wall_cap=None, count=None):
         skipped_chunks = len(pending)
     finally:
         pool.shutdown(wait=False, cancel_futures=True)
+    if harness_errors:
+        # a worker died (watchdog after a rank spun without reaching the simulator, or a crash of the
+        # interpreter): find the culprit by running the cases that were in flight one by one
+        done_idx = {r['idx'] for r in results}
+        suspects = [i for f, c in futs.items() for i in c if i not in done_idx][:16]
+        recovered, hangs = _isolate(cid, tier, base_seed, suspects, per_case_timeout)
+        results.extend(recovered)
+        if hangs or recovered:
+            harness_errors = [h for h in harness_errors if not h.startswith('worker failed')
+                              and not h.startswith('timeout waiting')]
+        results.extend(hangs)
     results.sort(key=lambda r: r['idx'])
     return mod, results, harness_errors, skipped_chunks, _real_time() - t0, jobs
+
+
+def _one_case_subprocess(cid, tier, base_seed, idx, timeout):
+    env = dict(os.environ)
+    env['VERIF_NO_EVIDENCE'] = '1'
+    try:
+        p = subprocess.run([os.path.join(VERIF, 'check'), cid, '--tier', tier, '--seed', str(base_seed),
+                            '--one', str(idx)], capture_output=True, text=True, env=env, timeout=timeout)
+    except subprocess.TimeoutExpired:
+        return 'timeout', None
+    for ln in reversed(p.stdout.splitlines()):
+        if ln.startswith('ONE '):
+            return 'done', json.loads(ln[4:])
+    return 'crash', (p.stdout[-500:] + p.stderr[-1500:])
+
+
+def _isolate(cid, tier, base_seed, suspects, per_case_timeout):
+    recovered, hangs = [], []
+    t = min(per_case_timeout, 240)
+    t = int(os.environ.get('VERIF_CASE_TIMEOUT') or 0) or t
+    for i in suspects:
+        if any(h['kind'] == 'hang' for h in hangs):
+            break                     # one confirmed hang is reported; isolating more costs a timeout each
+        st, r = _one_case_subprocess(cid, tier, base_seed, i, t)
+        if st == 'timeout':
+            st, r = _one_case_subprocess(cid, tier, base_seed, i, t)
+        if st == 'done':
+            recovered.append(r)
+        elif st == 'timeout' and any(h['kind'] == 'hang' for h in hangs):
+            continue
+        elif st == 'timeout':
+            hangs.append(dict(status='violation', prop=cid, kind='hang', idx=i, nontrivial=True, events=0,
+                              sim_time=0.0, digest='', order_digest='hang', faults={}, probes={}, wall=2.0 * t,
+                              finding_key=None, tape_len=0, key='hang-%d' % i, P=None,
+                              message='a rank computes forever without reaching the simulator: the case did not '
+                                      'finish within %d s in two fresh interpreters' % t, detail=None))
+        else:
+            hangs.append(dict(status='harness', prop=cid, kind='harness-crash', idx=i, nontrivial=False, events=0,
+                              sim_time=0.0, digest='', order_digest='crash', faults={}, probes={}, wall=0.0,
+                              finding_key=None, tape_len=0, key='crash-%d' % i, P=None, message=str(r)[-800:],
+                              detail=None))
+    return recovered, hangs
+
+
+def main_one(cid, tier, base_seed, idx):
+    mod = load_check(cid)
+    case = gen_case(mod, base_seed, tier, idx)
+    res = run_case(mod, case)
+    slim = {k: res[k] for k in ('status', 'prop', 'kind', 'message', 'nontrivial', 'events', 'sim_time', 'digest',
+                                'order_digest', 'faults', 'probes', 'wall', 'finding_key', 'tape_len')}
+    slim['idx'] = idx
+    slim['key'] = case_key(case)
+    slim['P'] = case.get('P')
+    if res['status'] in ('violation', 'harness'):
+        slim['detail'] = res.get('detail')
+    print('ONE ' + jdump(slim))
+    shutil.rmtree(scratch_root(), ignore_errors=True)
+    return 0
 
 
 def summarise(mod, tier, base_seed, results, harness_errors, skipped_chunks, wall, jobs,
@@ -760,6 +829,15 @@ def main_check(cid, tier, base_seed, jobs=None):
             continue
         seen_kinds.add(sig)
         case = gen_case(mod, base_seed, tier, r['idx'])
+        if r['kind'] == 'hang':
+            path = write_replay(mod, case, dict(kind='hang', message=r['message'], tape=[], digest='', detail=None),
+                                ['not minimised: every execution of a hanging case costs the full timeout'],
+                                tier, base_seed, 0, hang_timeout=min(getattr(mod, 'CASE_TIMEOUT', 300), 240))
+            reported += 1
+            exit_code = 1
+            lines.append('VIOLATION property=%s replay=%s' % (mod.ID, path))
+            lines.append('  kind=hang seed=%s idx=%d; %s' % (case['seed'], r['idx'], r['message']))
+            continue
         full = run_case(mod, case)
         if full['status'] != 'violation':
             herr.append('violation at idx %d did not reproduce in the parent process' % r['idx'])
@@ -818,6 +896,16 @@ def main_replay(path):
         env['PYTHONHASHSEED'] = want
         env['VERIF_KEEP_HASHSEED'] = '1'
         return subprocess.call([os.path.join(VERIF, 'check'), '--replay', path], env=env)
+    if blob0.get('hang_timeout') and not os.environ.get('VERIF_REPLAY_CHILD'):
+        env = dict(os.environ)
+        env['VERIF_REPLAY_CHILD'] = '1'
+        try:
+            return subprocess.call([os.path.join(VERIF, 'check'), '--replay', path], env=env,
+                                   timeout=blob0['hang_timeout'])
+        except subprocess.TimeoutExpired:
+            print('replay %s: status=violation kind=hang (no result within %d s)' % (path, blob0['hang_timeout']))
+            print('VIOLATION property=%s replay=%s' % (blob0['property'], path))
+            return 1
     blob, res = replay_file(path)
     print('replay %s: status=%s kind=%s digest=%s (recorded %s)' % (
         path, res['status'], res['kind'], res['digest'], blob.get('digest')))
